@@ -28,6 +28,9 @@ func genTCPConn(r *Rng, cfg []cfgKey, focus string) tcpConnSpec {
 		sp.Chunks = append(sp.Chunks, [2]int{n, int(r.U64() % 1000000)})
 	}
 	sp.Coalesce = nch > 0 && r.Bool()
+	if nch >= 2 && r.Chance(30) {
+		sp.TFinFirst, sp.Fin = true, true
+	}
 	sp.TOut = [2]int{[]int{0, 1, 100, 100, 1000, 5000}[r.Intn(6)], int(r.U64() % 1000000)}
 	if r.Chance(12) {
 		sp.TOut[0] = []int{16383, 16384, 40000}[r.Intn(3)]
@@ -39,7 +42,11 @@ func genTCPConn(r *Rng, cfg []cfgKey, focus string) tcpConnSpec {
 	case "C02":
 		probeW, postW, dialW = 5, 3, 2
 	}
-	switch c := r.Intn(100); {
+	sel := r.Intn(100)
+	if sel < probeW+postW+dialW {
+		sp.TFinFirst = false // only a relayed connection can wait for the target's half-close
+	}
+	switch c := sel; {
 	case c < probeW: // unauthenticated input
 		switch r.Intn(4) {
 		case 0:
@@ -120,6 +127,7 @@ func cTCP(ctx *Ctx, prop string) {
 			if j > 0 && r.Chance(35) && cs.Conns[0].Kind == "honest" && cs.Conns[0].Corrupt == 0 { // replay of the first connection
 				sp = cs.Conns[0]
 				sp.Fin = r.Bool()
+				sp.TFinFirst = false
 			}
 			cs.Conns = append(cs.Conns, sp)
 		}
